@@ -6,6 +6,7 @@ import (
 	"fmt"
 	"math/big"
 	"math/rand"
+	"os"
 	"time"
 	"verif/harness/derbuild"
 
@@ -18,7 +19,7 @@ type Shape struct {
 	Size   string `json:"size"`   // "min" | "s5" | "straddle" | "s300" | "big"
 	Pos    string `json:"pos"`    // "first" | "middle" | "last"
 	Width  string `json:"width"`  // "w1" | "w8" | "w9" | "w16" | "w20"
-	Ext    string `json:"ext"`    // "none" | "reason" | "multi"
+	Ext    string `json:"ext"`    // "none" | "reason" | "multi" | "certissuer" (entries of a CRL of another CA claim the probe's issuer, 2.5.29.29)
 	Enc    string `json:"enc"`    // "der" | "pem" | "pemcrlf"
 	Garble string `json:"garble"` // kind of garbage body: "text" | "random" | "empty" | "truncated"
 	Num    string `json:"num"`    // cRLNumber policy of successive lists: "inc" | "same" (reissued under the same number) | "absent" (no cRLNumber; v1 or v2 without it)
@@ -28,12 +29,20 @@ var (
 	shapeSizes  = []string{"min", "s5", "straddle", "s300"}
 	shapePos    = []string{"first", "middle", "last"}
 	shapeWidths = []string{"w1", "w8", "w9", "w16", "w20"}
-	shapeExts   = []string{"none", "reason", "multi"}
+	shapeExts   = []string{"none", "reason", "multi", "certissuer"}
 	shapeEncs   = []string{"der", "pem", "pemcrlf"}
 	shapeGarble = []string{"text", "random", "empty", "truncated"}
 )
 
 func RandomShape(rng *rand.Rand) Shape {
+	s := randomShape(rng)
+	if e := os.Getenv("VERIF_SHAPE_EXT"); e != "" { // debugging aid
+		s.Ext = e
+	}
+	return s
+}
+
+func randomShape(rng *rand.Rand) Shape {
 	return Shape{
 		Size:   shapeSizes[rng.Intn(len(shapeSizes))],
 		Pos:    shapePos[rng.Intn(len(shapePos))],
@@ -104,7 +113,7 @@ func (s Shape) fillerCount(listed int) int {
 
 func (s Shape) entryExt(i int) (int, []pkix.Extension) {
 	switch s.Ext {
-	case "reason":
+	case "reason", "certissuer":
 		return 1 + i%6, nil
 	case "multi":
 		inval, _ := asn1.Marshal(time.Date(2020, 1, 1, 0, 0, 0, 0, time.UTC))
@@ -123,6 +132,17 @@ type CRLSpec struct {
 	Avoid   []*big.Int // serials that must NOT be listed (other probes)
 	CritExt bool       // carries an unknown critical CRL extension
 	Number  int64
+	// ForeignIssuerRaw: the DER name of the CA whose certificates are probed, given when Signer is another CA. With the shape
+	// "certissuer" every entry then carries a certificateIssuer entry extension naming that CA. The CRL is not an indirect CRL and no
+	// certificate delegates revocation to Signer, so the entries still concern nobody but Signer's own certificates.
+	ForeignIssuerRaw []byte
+}
+
+// certificateIssuerExt renders the CRL entry extension 2.5.29.29 (GeneralNames with one directoryName).
+func certificateIssuerExt(nameRaw []byte, critical bool) pkix.Extension {
+	dn, _ := asn1.Marshal(asn1.RawValue{Class: asn1.ClassContextSpecific, Tag: 4, IsCompound: true, Bytes: nameRaw})
+	gns, _ := asn1.Marshal(asn1.RawValue{Class: asn1.ClassUniversal, Tag: asn1.TagSequence, IsCompound: true, Bytes: dn})
+	return pkix.Extension{Id: asn1.ObjectIdentifier{2, 5, 29, 29}, Critical: critical, Value: gns}
 }
 
 // BuildCRL renders a CRLSpec in the given shape.
@@ -168,6 +188,9 @@ func BuildCRL(spec CRLSpec, s Shape) []byte {
 	now := time.Now().Add(-time.Minute).UTC().Truncate(time.Second)
 	for i, sn := range serials {
 		reason, extra := s.entryExt(i)
+		if s.Ext == "certissuer" && spec.ForeignIssuerRaw != nil {
+			extra = append(extra, certificateIssuerExt(spec.ForeignIssuerRaw, i%4 == 3))
+		}
 		entries = append(entries, pki.CRLEntry{Serial: sn, Time: now.Add(-time.Duration(i) * time.Second), Reason: reason, Extra: extra})
 	}
 	var crlExtra []pkix.Extension
